@@ -16,4 +16,6 @@ MUTANTS = [
     M('C04', 'EQ stride spelled 2*w*i', H + 'math.fj', "        rep(n, i) .add dst+i*dw, src+i*dw\n", "        rep(n, i) .add dst+2*w*i, src+i*dw\n", None),
     M('C04', 'hex.div clears one hex less of the remainder register', 'flipjump/stl/hex/div.fj', "        .zero nb+1, _r", "        .zero nb, _r", 'C04.SCRATCH'),
     M('C04', 'hex.mul keeps its accumulator between executions', 'flipjump/stl/hex/mul.fj', "        .zero n, dst\n        .zero n, src\n", "        .zero n, src\n", 'C04.SCRATCH'),
+    M('C04', 'hex.add_mul n leaves the multiply carry behind (seed C04_2)', 'flipjump/stl/hex/mul.fj', "        .xor .mul.dst, b\n        .mul.clear_carry\n    }", "        .xor .mul.dst, b\n    }", 'C04.CARRY'),
+    M('C04', 'add.clear_carry leaves tables.ret pointing at its own label', 'flipjump/stl/hex/math.fj', "        def clear_carry @ ret < ..tables.ret, .dst, ..tables.res {\n            wflip ..tables.ret+w, ret, .dst\n          ret:\n            wflip ..tables.ret+w, ret\n            ..zero ..tables.res", "        def clear_carry @ ret < ..tables.ret, .dst, ..tables.res {\n            wflip ..tables.ret+w, ret, .dst\n          ret:\n            ..zero ..tables.res", 'C04.RET-RESTORE'),
 ]
